@@ -23,6 +23,10 @@ pub enum Loc {
     /// another spelling of the path recorded NOW (a different string naming the same path):
     /// 0 doubled separator, 1 trailing separator, 2 leading "./", 3 "x/../" in front
     Respell(u8),
+    /// strings holding the character U+0000 (legal UTF-8, one byte 0x00 - the byte the field is
+    /// padded with): 0 at the end, 1 alone, 2 in the middle, 3 twice at the end, 4 at the start
+    #[serde(alias = "Nul")]
+    Nul(u8),
 }
 
 #[derive(Serialize, Deserialize, Clone, Debug, PartialEq, Eq)]
@@ -93,6 +97,13 @@ fn loc_string(l: &Loc, original: &str, current: &str) -> String {
             }
             s
         }
+        Loc::Nul(k) => match k % 5 {
+            0 => "dir/pack.jbkc\0".to_string(),
+            1 => "\0".to_string(),
+            2 => "dir\0pack.jbkc".to_string(),
+            3 => "p\0\0".to_string(),
+            _ => "\0pack".to_string(),
+        },
         Loc::DotDot => "../elsewhere/../pack.jbkc".to_string(),
         Loc::Original => original.to_string(),
     }
@@ -114,7 +125,7 @@ impl Property for C12 {
     const ID: &'static str = "C12";
 
     fn rule() -> String {
-        "stateful: proptest-generated histories (0..12 ops) of set_location{listed pack k | unknown uuid, location in {empty, ASCII 0..213 bytes, multi-byte UTF-8 of exactly n<=213 bytes (incl. 211, 212, 213), path with .., the original}} interleaved with reopen, over manifests standalone (NoConcat) or inside a container file at small and large offsets (OneFile, TwoFiles; contents of generated size in front of it), 2-4 packs listed. The interpreter applies each op with tools::set_location and to a model map uuid->location. Oracle after every op: return value Ok(Some((kind, previous location))) / Ok(None) with a byte-identical file for an unknown uuid; the file differs from its predecessor only inside bytes 38..256 of that pack-info block (offset from the independent decoder); ManifestPack::new succeeds and its pack infos equal the model (other fields unchanged); ManifestPack::check, ContainerPack::check and the independent decoder's own blake3/CRC verification succeed; when the directory pack is reachable Container::new succeeds, check() is true, entries equal the model and contents of reachable packs equal the model. Non-trivial = >=2 rewrites one of which targets a pack rewritten before, or a multi-byte location at the length limit, or a manifest at offset > 0; distinct by history shape. One case in five is assembled with the low-level creators (0/30/70 KB of free data per pack, the directory pack declared after 0..3 content packs); fixed cases: manifests of 270 and 300 packs (pack infos across the 64 KiB buffer the check is computed through), the location of every pack rewritten in turn. 301 further fixed cases move the pack-info array one byte at a time (one pack carrying 0..=300 bytes of free data). One container is kept open from before the first rewrite; after every rewrite a manifest parsed through it must read the locations written and verify.".into()
+        "stateful: proptest-generated histories (0..12 ops) of set_location{listed pack k | unknown uuid, location in {empty, ASCII 0..213 bytes, multi-byte UTF-8 of exactly n<=213 bytes (incl. 211, 212, 213), path with .., the original}} interleaved with reopen, over manifests standalone (NoConcat) or inside a container file at small and large offsets (OneFile, TwoFiles; contents of generated size in front of it), 2-4 packs listed. The interpreter applies each op with tools::set_location and to a model map uuid->location. Oracle after every op: return value Ok(Some((kind, previous location))) / Ok(None) with a byte-identical file for an unknown uuid; the file differs from its predecessor only inside bytes 38..256 of that pack-info block (offset from the independent decoder); ManifestPack::new succeeds and its pack infos equal the model (other fields unchanged); ManifestPack::check, ContainerPack::check and the independent decoder's own blake3/CRC verification succeed; when the directory pack is reachable Container::new succeeds, check() is true, entries equal the model and contents of reachable packs equal the model. Non-trivial = >=2 rewrites one of which targets a pack rewritten before, or a multi-byte location at the length limit, or a manifest at offset > 0; distinct by history shape. One case in five is assembled with the low-level creators (0/30/70 KB of free data per pack, the directory pack declared after 0..3 content packs); fixed cases: manifests of 270 and 300 packs (pack infos across the 64 KiB buffer the check is computed through), the location of every pack rewritten in turn. 301 further fixed cases move the pack-info array one byte at a time (one pack carrying 0..=300 bytes of free data). One container is kept open from before the first rewrite; after every rewrite a manifest parsed through it must read the locations written and verify. Locations also include strings holding U+0000 (at the end, alone, in the middle, twice, at the start): the byte the field is padded with.".into()
     }
 
     fn cases(tier: Tier) -> u32 {
@@ -173,6 +184,7 @@ impl Property for C12 {
             1 => Just(Loc::DotDot),
             2 => Just(Loc::Original),
             2 => (0u8..4).prop_map(Loc::Respell),
+            1 => (0u8..5).prop_map(Loc::Nul),
         ];
         let op = prop_oneof![
             6 => (any::<u16>(), prop::bool::weighted(0.12), loc).prop_map(|(pack, unknown, loc)| Op::Set { pack, unknown, loc }),
@@ -197,7 +209,7 @@ impl Property for C12 {
     }
 
     fn required_classes(_tier: Tier) -> Vec<&'static str> {
-        vec!["manifest-at-offset>0", "manifest-standalone", "rewrite-twice-same-pack", "utf8-at-limit", "unknown-uuid", "relocate-directory-pack", "restore-original", "packs-listed:4", "lowlevel-container", "pack-infos-beyond-64KiB", "directory-pack-not-declared-first", "many-packs", "respelled-location", "pack-info-array-alignment-sweep"]
+        vec!["manifest-at-offset>0", "manifest-standalone", "rewrite-twice-same-pack", "utf8-at-limit", "unknown-uuid", "relocate-directory-pack", "restore-original", "packs-listed:4", "lowlevel-container", "pack-infos-beyond-64KiB", "directory-pack-not-declared-first", "many-packs", "respelled-location", "pack-info-array-alignment-sweep", "location-with-nul-character"]
     }
 
     fn run(case: &Case, ctx: &Ctx) -> CaseResult {
@@ -429,6 +441,9 @@ impl Property for C12 {
                     if matches!(loc, Loc::Respell(_)) && newloc != infos[k].location {
                         info.class("respelled-location");
                     }
+                    if matches!(loc, Loc::Nul(_)) {
+                        info.class("location-with-nul-character");
+                    }
                     if matches!(loc, Loc::Utf8(n) if *n >= 211) {
                         info.class("utf8-at-limit");
                     }
@@ -533,6 +548,7 @@ impl Property for C12 {
                             Loc::DotDot => 3,
                             Loc::Original => 4,
                             Loc::Respell(_) => 5,
+                            Loc::Nul(_) => 6,
                         }
                 }
             })
